@@ -9,9 +9,16 @@ mod alloc;
 mod canon;
 mod gs1;
 mod gs2;
+mod games;
+mod idcheck;
+mod gen_games;
+mod master;
 mod net;
+mod quake;
 mod reader;
+mod settings;
 mod valve;
+mod views;
 
 use std::io::{BufRead, Write};
 use std::panic::{catch_unwind, AssertUnwindSafe};
@@ -27,6 +34,11 @@ fn entries() -> Vec<(&'static str, EntryFn)> {
     v.extend(valve::entries());
     v.extend(gs1::entries());
     v.extend(gs2::entries());
+    v.extend(master::entries());
+    v.extend(settings::entries());
+    v.extend(games::entries());
+    v.extend(idcheck::entries());
+    v.extend(quake::entries());
     v
 }
 
